@@ -14,9 +14,18 @@ import (
 
 func init() { scenarios["consumer"] = scenConsumer }
 
-type consIcpt struct{ idx int; panics bool }
+type consIcpt struct {
+	idx    int
+	panics bool
+	cs     *consScen
+}
 
 func (c *consIcpt) OnConsume(m *sarama.ConsumerMessage) {
+	if c.idx == 0 && c.cs != nil {
+		c.cs.mu.Lock()
+		c.cs.intercepted = append(c.cs.intercepted, icptRec{m.Topic, m.Partition, m.Offset})
+		c.cs.mu.Unlock()
+	}
 	m.Headers = append(m.Headers, &sarama.RecordHeader{Key: []byte("icpt"), Value: []byte(strconv.Itoa(c.idx))})
 	if c.panics {
 		panic("consumer interceptor panics")
@@ -46,6 +55,14 @@ type consScen struct {
 	committed bool
 	nIcpt   int
 	lastAppendUs int64
+	mu          sync.Mutex
+	intercepted []icptRec
+}
+
+type icptRec struct {
+	topic     string
+	partition int32
+	offset    int64
 }
 
 // visible returns the application-visible records with offset >= start in the current log.
@@ -113,7 +130,7 @@ func scenConsumer(r *run) {
 		cfg.Consumer.IsolationLevel = sarama.ReadCommitted
 	}
 	for i := 0; i < cs.nIcpt; i++ {
-		cfg.Consumer.Interceptors = append(cfg.Consumer.Interceptors, &consIcpt{idx: i, panics: c.Config.PanicIcpt == i+1})
+		cfg.Consumer.Interceptors = append(cfg.Consumer.Interceptors, &consIcpt{idx: i, panics: c.Config.PanicIcpt == i+1, cs: cs})
 	}
 	if err := cfg.Validate(); err != nil {
 		r.finish("infra", "generated config invalid: "+err.Error())
@@ -410,6 +427,29 @@ func (cs *consScen) rulePrefix(rd *reader, got int64, want *mrec) string {
 }
 
 func (cs *consScen) judge(final bool) {
+	cs.mu.Lock()
+	for _, ir := range cs.intercepted {
+		mp := cs.cl.part(ir.topic, ir.partition)
+		if mp == nil {
+			continue
+		}
+		rec := findOffset(mp, ir.offset)
+		if rec == nil {
+			cs.r.violate("C18.consumer-trail", "consumer interceptor invoked for %s@%d, which is no record of the log", mp.key(), ir.offset)
+			continue
+		}
+		if rec.batch.wb.control {
+			cs.r.violate("C18.consumer-trail", "consumer interceptor invoked for the control record %s@%d, which is never delivered", mp.key(), ir.offset)
+		}
+		if cs.committed && rec.batch.wb.txn {
+			for _, a := range mp.aborted {
+				if a.pid == rec.batch.wb.pid && rec.offset >= a.first && rec.offset < a.last {
+					cs.r.violate("C18.consumer-trail", "consumer interceptor invoked for %s@%d, a record of an aborted transaction that a read-committed consumer never delivers", mp.key(), ir.offset)
+				}
+			}
+		}
+	}
+	cs.mu.Unlock()
 	nf := 0
 	for _, n := range cs.r.faults {
 		nf += n
